@@ -133,6 +133,36 @@ pub fn gen_prog(u: &mut Chooser, ctx: &[(String, V)]) -> E {
     }
 }
 
+/// tiny programs drawn from large parametrised families (hundreds of distinct source texts / string arguments):
+/// whatever an implementation memoises per pattern, per literal or per program text gets filled, evicted and re-used
+pub fn gen_keyed_prog(u: &mut Chooser) -> E {
+    let word = |u: &mut Chooser| -> String { (0..u.below(4)).map(|_| *u.pick(&['a', 'b', 'c', ' '])).collect() };
+    let s = |x: String| E::Lit(V::Str(x));
+    match u.below(8) {
+        0 | 1 | 2 => {
+            let pat = format!("{}{}{}", if u.flip() { "^" } else { "" }, word(u), if u.flip() { "$" } else { "" });
+            let subject = if u.flip() { s(word(u)) } else { E::var("w0") };
+            E::mcall(subject, "matches", vec![s(pat)])
+        }
+        3 => E::call("string", vec![E::call("duration", vec![s(format!("{}m{}s", u.below(50), u.below(60)))])]),
+        4 => E::bin(Op::Add, E::call("int", vec![s(format!("{}", u.range(-300, 300)))]), E::Lit(V::Int(1))),
+        5 => E::bin(Op::Add, E::call("string", vec![E::Lit(V::Int(u.range(-300, 300)))]), E::var("w0")),
+        6 => E::mcall(E::call("timestamp", vec![s(format!("20{:02}-{:02}-{:02}T00:00:00Z", u.below(40), 1 + u.below(12), 1 + u.below(28)))]), "getDayOfYear", vec![]),
+        _ => E::mcall(s(word(u)), if u.flip() { "startsWith" } else { "contains" }, vec![s(word(u))]),
+    }
+}
+
+/// many distinct tiny programs, each executed several times with many others in between
+pub fn gen_wide_history(u: &mut Chooser) -> History {
+    let w0: String = (0..u.below(5)).map(|_| *u.pick(&['a', 'b', 'c', ' '])).collect();
+    let ctx = vec![("w0".to_string(), V::Str(w0)), ("s0".to_string(), V::s("p")), ("s1".to_string(), V::s("q")), ("l0".to_string(), V::List(vec![])), ("l1".to_string(), V::List(vec![V::Int(1)]))];
+    let np = 20 + u.below(41);
+    let programs: Vec<E> = (0..np).map(|_| gen_keyed_prog(u)).collect();
+    let ns = 60 + u.below(141);
+    let steps = (0..ns).map(|_| Step::Exec(u.below(np))).collect();
+    History { ctx, programs, steps }
+}
+
 pub fn gen_history(u: &mut Chooser) -> History {
     let ctx = gen_ctx(u);
     let np = 1 + u.below(6);
@@ -254,7 +284,10 @@ pub fn check_history(h: &History) -> Outcome {
     if reexec > 0 {
         cl.push("re-execution");
     }
-    pass_n(concat_reexec_with_kept, cl)
+    if h.programs.len() >= 20 && reexec >= 17 {
+        cl.push("many-distinct-programs-re-executed");
+    }
+    pass_n(concat_reexec_with_kept || (h.programs.len() >= 20 && reexec >= 17), cl)
 }
 
 // ------------------------------------------------------------------------------------------------
@@ -389,7 +422,7 @@ pub fn check_threads(c: &ThreadCase) -> Outcome {
 
 pub fn run(r: &mut Runner) {
     r.rule = "histories: a generated context (lists, nested lists, strings, a map holding lists) and up to 6 programs biased to what can alias buffers (x + [..], x + x, [x, x + y], s + 'c', (x + y) + z, concatenation inside macro bodies over context variables, \
-              index / select results concatenated, random typed programs); a history is up to 50 steps Exec(i) / Snapshot(var); every result and snapshot (real interpreter values sharing Arcs) is kept together with a deep model copy. After every step: each context variable read back \
+              index / select results concatenated, random typed programs); a second family runs 20-60 distinct tiny programs from large parametrised families (matches with ~340 patterns, duration / timestamp / int / string of generated literals) 60-200 times per history; a history is up to 50 steps Exec(i) / Snapshot(var); every result and snapshot (real interpreter values sharing Arcs) is kept together with a deep model copy. After every step: each context variable read back \
               equals its model copy, every kept value still equals its model copy, the program's Debug rendering is unchanged, and re-executing a program gives a result equal to its first (maps as sets, NaN as a class, errors included). \
               threads: 2-16 scoped threads share one program set (<= 43) and one root context, each binds its own variables in an inner scope and executes up to 200 program indices with generated spin / yield delays behind a start barrier, repeated; every result must equal the \
               single-threaded reference and the root must be unchanged. A separate crate asserts Send + Sync for Program, Context, Value, ExecutionError at compile time. Non-trivial: a concatenating / macro program re-executed while earlier results are kept; a thread run in which two threads executed the same program at the same time."
@@ -400,6 +433,11 @@ pub fn run(r: &mut Runner) {
     ];
     let n = r.tier.n(2_000, 100_000);
     r.random("execution-histories", 400, n, gen_history, check_history);
+    // content-keyed hidden state (memoised patterns, interned literals, ...): 20-60 distinct tiny programs from large
+    // parametrised families, 60-200 executions each history; every execution is compared with the reference semantics
+    // and with the program's first result
+    let n = r.tier.n(600, 20_000);
+    r.random("many-small-programs-repeated", 700, n, gen_wide_history, check_history);
     // thread configurations: each of the 16 shard processes runs its share, so up to 16 x 16 threads contend for the cores
     // (oversubscription adds preemption points); a failing configuration is shrunk like any other case
     let cfgs = r.tier.n(13, 320);
